@@ -71,6 +71,9 @@ fn main() {
         i += 1;
     }
     expand::silence_panics();
+    if id == "C16" && std::env::var("DX_C16_WORKER").is_err() {
+        c16::supervise(&args, tier, replay.as_ref());
+    }
     let ctx = Ctx { tier, replay };
     let mut rep = Report::new(&id, tier);
     rep.replay_mode = ctx.replay.is_some();
